@@ -537,6 +537,9 @@ pub enum Decoy
     BlockCommentMulti(String), // spread over lines
     Unconfigured(String),     // full statement text with a name that is not configured
     NoLiteral(String),        // configured name without a literal message
+    /// configured name with key-values but no message (`info!(a = 1);`): only
+    /// used by the fixed known-finding probe, never generated
+    NoLiteralKv(String),
     InString(String),         // `let _s = "…info!(\"x\")…";`
 }
 
@@ -551,6 +554,7 @@ impl Decoy
             | Decoy::BlockCommentMulti(s)
             | Decoy::Unconfigured(s)
             | Decoy::NoLiteral(s)
+            | Decoy::NoLiteralKv(s)
             | Decoy::InString(s) => s,
         }
     }
@@ -563,6 +567,7 @@ impl Decoy
             Decoy::BlockCommentMulti(_) => "block-comment-multi",
             Decoy::Unconfigured(_) => "unconfigured",
             Decoy::NoLiteral(_) => "no-literal",
+            Decoy::NoLiteralKv(_) => "no-literal-kv",
             Decoy::InString(_) => "in-string",
         }
     }
@@ -625,7 +630,7 @@ pub fn decoy(cfg: &ConfigSpec) -> BoxedStrategy<Decoy>
         2 => (select(&["/* ", "/** ", "/*", "/*! "][..]), any_stmt.clone()).prop_map(|(p, s)| Decoy::BlockComment(format!("{}{} */", p, s))),
         2 => any_stmt.clone().prop_map(|s| Decoy::BlockCommentMulti(format!("/*\n * before\n   {};\n * after\n */", s))),
         3 => (select(uncfg), msg.clone()).prop_map(|(n, m)| Decoy::Unconfigured(format!("{}!(\"{}\");", n, m))),
-        2 => (call.clone(), select(&["", "x", "target: \"t\"", "FMT, 1", "x.y", "&s", "concat!(a)", "a = 1"][..]))
+        2 => (call.clone(), select(&["", "x", "target: \"t\"", "FMT, 1", "x.y", "&s", "concat!(a)"][..]))
             .prop_map(|(c, a)| Decoy::NoLiteral(format!("{}!({});", c, a))),
         2 => (call, select(&["say ", "", "a \\\\ \\\" ", "x\\\" "][..]), select(&["hi", "[ref: 2] z", ""][..]))
             .prop_map(|(c, pre, m)| Decoy::InString(format!("let _s = \"{}{}!(\\\"{}\\\")\";", pre, c, m))),
